@@ -94,6 +94,8 @@ pub fn main(args: &[String]) -> i32 {
     writeln!(out, "{}", json!({"op": "reset", "run_seed": seed})).unwrap();
     lines += 1;
     for _ in 0..nops {
+        let mut partial = serde_json::Map::new(); // op and arguments, kept for the case that the call panics
+        let step = std::panic::catch_unwind(std::panic::AssertUnwindSafe(|| -> Option<Value> {
         let d = db.as_ref().unwrap();
         let existing: Vec<String> = d.regions().id_to_index().keys().cloned().collect();
         let pick = |rng: &mut StdRng| existing[rng.random_range(0..existing.len())].clone();
@@ -102,7 +104,7 @@ pub fn main(args: &[String]) -> i32 {
         let res: Result<(), String>;
         if existing.is_empty() || choice < 12 {
             let free: Vec<&str> = names.iter().copied().filter(|n| !existing.iter().any(|e| e == n)).collect();
-            if free.is_empty() { continue; }
+            if free.is_empty() { return None; }
             let nm = free[rng.random_range(0..free.len())];
             ev.insert("op".into(), json!("create")); ev.insert("nm".into(), json!(nm));
             res = d.create_region_if_needed(nm).map(|_| ()).map_err(|e| format!("{e:?}"));
@@ -113,7 +115,7 @@ pub fn main(args: &[String]) -> i32 {
             let sz = [1usize, 1, 2, 3, 5, 9, 17][rng.random_range(0..7)];
             let kind = rng.random_range(0..10);
             let (at, trunc): (i64, bool) = match kind { 0..=4 => (-1, false), 5 | 6 => (rng.random_range(0..=cur) as i64, false), 7 | 8 => (rng.random_range(0..=cur) as i64, true), _ => (cur as i64 + 1, false) };
-            if nxt + sz as u64 > 60000 { break; }
+            if nxt + sz as u64 > 60000 { return None; }
             let vals: Vec<u64> = (0..sz as u64).map(|i| nxt + i).collect();
             let bytes: Vec<u8> = vals.iter().flat_map(|v| cell(*v, scale)).collect();
             ev.insert("op".into(), json!("write")); ev.insert("nm".into(), json!(nm)); ev.insert("at".into(), json!(at)); ev.insert("sz".into(), json!(sz));
@@ -138,7 +140,7 @@ pub fn main(args: &[String]) -> i32 {
         } else if choice < 70 {
             let nm = pick(&mut rng);
             let new = names[rng.random_range(0..names.len())];
-            if new == nm { continue; }
+            if new == nm { return None; }
             ev.insert("op".into(), json!("rename")); ev.insert("nm".into(), json!(nm)); ev.insert("new".into(), json!(new));
             res = d.get_region(&nm).unwrap().rename(new).map_err(|e| format!("{e:?}"));
             if res.is_ok() { let v = reference.remove(&nm).unwrap(); reference.insert(new.into(), v); }
@@ -177,8 +179,20 @@ pub fn main(args: &[String]) -> i32 {
         ev.insert("c01".into(), json!(own_ok));
         ev.insert("c02".into(), json!(extent_ok(d).map(|_| "ok".to_string()).unwrap_or_else(|e| e)));
         if let Some(p) = problem { ev.insert("problem".into(), json!(p)); }
-        writeln!(out, "{}", Value::Object(ev)).unwrap();
-        lines += 1;
+        Some(Value::Object(ev))
+        }));
+        let _ = &mut partial;
+        match step {
+            Ok(Some(ev)) => { writeln!(out, "{}", ev).unwrap(); lines += 1; }
+            Ok(None) => {}
+            Err(p) => {
+                // a panic of the code under test is data: it is recorded (no state can be read back) and ends this recording
+                let msg = p.downcast_ref::<String>().cloned().or_else(|| p.downcast_ref::<&str>().map(|s| s.to_string())).unwrap_or_default();
+                writeln!(out, "{}", json!({"op": "panic", "res": "panic", "error": msg, "alloc": {"regs": [], "holes": [], "pend": [], "fileLen": 0}, "contents": {}, "c01": false, "c02": format!("panic: {msg}")})).unwrap();
+                lines += 1;
+                break;
+            }
+        }
     }
     }
     out.flush().unwrap();
